@@ -810,3 +810,59 @@ func renderAll(f *ach.File) string {
 }
 
 func isADV(b ach.Batcher) bool { return b.GetHeader().StandardEntryClassCode == ach.ADV }
+
+// TextVariants: the reader-side relaxations.  AllowMissingFileHeader / AllowMissingFileControl
+// are looked at by ach.Reader (a text without the file header / file control record is accepted);
+// no stored, tabulated file depends on AllowMissingFileControl.
+var TextVariants = []string{"text:missing-file-header-record", "text:missing-file-control-record"}
+
+// TextNeedsOpts renders a generated valid file and removes the file header record or the file
+// control record (the 9-padding is recomputed), so that ach.Reader accepts the text ONLY under
+// the returned options (checked: error without them, none with them).  ok=false: not produced.
+func TextNeedsOpts(r *rng.R, f *ach.File, variant string) (text string, o *ach.ValidateOpts, ok bool) {
+	defer func() {
+		if recover() != nil {
+			ok = false
+		}
+	}()
+	full, err := Text(f, false)
+	if err != nil {
+		return "", nil, false
+	}
+	lines := strings.Split(strings.TrimSuffix(full, "\n"), "\n")
+	var kept []string
+	for _, l := range lines {
+		if strings.HasPrefix(l, "9999999999") && strings.Trim(l, "9") == "" {
+			continue // padding
+		}
+		kept = append(kept, l)
+	}
+	if len(kept) < 3 {
+		return "", nil, false
+	}
+	o = &ach.ValidateOpts{}
+	switch variant {
+	case "text:missing-file-header-record":
+		o.AllowMissingFileHeader = true
+		kept = kept[1:]
+	case "text:missing-file-control-record":
+		o.AllowMissingFileControl = true
+		kept = kept[:len(kept)-1]
+	default:
+		return "", nil, false
+	}
+	for len(kept)%10 != 0 {
+		kept = append(kept, strings.Repeat("9", 94))
+	}
+	text = strings.Join(kept, "\n") + "\n"
+	if _, err := ach.NewReader(strings.NewReader(text)).Read(); err == nil {
+		return "", nil, false
+	}
+	rd := ach.NewReader(strings.NewReader(text))
+	rd.SetValidation(o)
+	if _, err := rd.Read(); err != nil {
+		reject(&OptVariant{Name: variant}, "read: "+err.Error())
+		return "", nil, false
+	}
+	return text, o, true
+}
